@@ -247,7 +247,7 @@ fn missing_case(idx: u64, rec: &mut Rec) {
     // missing / non-textual Location must be an error; with several fields the LAST one counts,
     // so a textual field before a non-textual last one must not be followed either
     let loc: Option<&[u8]> = [None, Some(&b"\xff"[..]), Some(&b"/ok\xff"[..]), Some(&b"\x80http://a.test/"[..])][(idx % 4) as usize];
-    let earlier_textual = idx >= 36;
+    let earlier_textual = (36..72).contains(&idx);
     let cfg = ReqCfg::new(["GET", "POST", "HEAD"][(idx / 4 % 3) as usize], "http://a.test/x");
     let f = match fast_to_recv(&cfg) {
         Ok(f) => f,
@@ -262,11 +262,21 @@ fn missing_case(idx: u64, rec: &mut Rec) {
         h.fields.push(Field::new("Location", l));
     }
     h.fields.push(Field::new("Content-Length", b"0"));
+    let mut stream = Vec::new();
+    let stale_interim = idx >= 72;
+    if stale_interim {
+        // an unsolicited interim response naming a target: it is not the redirect's Location
+        stream.extend_from_slice(b"HTTP/1.1 100 Continue\r\nLocation: http://other.test/landing\r\n\r\n");
+        if idx % 2 == 0 {
+            stream.extend_from_slice(b"HTTP/1.1 103 Early Hints\r\nLocation: http://other.test/hint\r\n\r\n");
+        }
+    }
+    stream.extend_from_slice(&h.render());
     rec.call();
-    match fast_response(f, &h.render()) {
+    match fast_response(f, &stream) {
         Ok((End::Redirect(mut r), ..)) => {
             let res = guarded(move || r.as_new_flow(RedirectAuthHeaders::Never).map(|o| o.map(|f| f.uri().to_string())));
-            rec.cov(if loc.is_none() { "missing-location" } else if earlier_textual { "non-textual-last-location-after-textual" } else { "non-textual-location" });
+            rec.cov(if stale_interim && loc.is_none() { "missing-location-after-interim-with-location" } else if loc.is_none() { "missing-location" } else if earlier_textual { "non-textual-last-location-after-textual" } else { "non-textual-location" });
             match res {
                 Err((l, m)) => rec.fail(&format!("C14/{}", panic_sig(&l, &m)), format!("{} at {}", m, l)),
                 Ok(Err(_)) => {}
@@ -277,7 +287,7 @@ fn missing_case(idx: u64, rec: &mut Rec) {
             }
         }
         Ok(_) => rec.fail("C14/no-redirect-state", "3xx did not reach the redirect state".into()),
-        Err(_) => rec.cov("non-textual-location-refused-by-parser"),
+        Err(_) => rec.cov(if stale_interim { "interim-with-fields-refused" } else { "non-textual-location-refused-by-parser" }),
     }
 }
 
@@ -299,7 +309,7 @@ impl Property for P {
             Workload::new("chains", tier.pick(20_000, 8_000_000), false, "random clean chains, URI compared at every hop"),
             Workload::new("wire", tier.pick(5_000, 2_000_000), false, "request line and Host of every intermediate hop"),
             Workload::new("hostile", (HOSTILE.len() * 3) as u64, true, "hostile Locations x 3 bases, weak oracle"),
-            Workload::new("missing", 72, true, "missing / non-textual Location, alone and as the last of several fields"),
+            Workload::new("missing", 108, true, "missing / non-textual Location, alone, as the last of several fields, and after interim responses that carry a Location"),
         ]
     }
     fn run_case(&self, wl: &str, idx: u64, seed: u64, rec: &mut Rec) {
